@@ -195,3 +195,40 @@ func H_C08_file_growth() {
 	verifObserve("second", second)
 	verifAssert(second == fresh, "an earlier render does not change what the extended File renders")
 }
+
+// the same for a path first referenced as a dot-import: hints added later do not turn it into a
+// named import (the file would mix bare and qualified references to one package)
+func H_C08_stable_dot() {
+	impSummaries()
+	canonicalMapOrder()
+	f := NewFile("p")
+	impPrefix(f)
+	p0, p1 := leadPath(0), leadPath(1)
+	f.ImportAlias(p0, ".")
+	ref := Qual(p0, "X")
+	first, _ := c08raw(ref, f)
+	verifAssert(first == "X", "a dot-imported path is referenced by the bare name")
+	steps := 1 + verifTier()
+	stepNames := []string{"s0", "s1"}
+	for k := 0; k < steps; k++ {
+		switch nondetChoice("op_"+stepNames[k], 4) {
+		case 0:
+			h := nondetString("late_name_" + stepNames[k])
+			verifAssume(verifMatch(h, reIdent))
+			f.ImportName(p0, h)
+		case 1:
+			h := nondetString("late_alias_" + stepNames[k])
+			verifAssume(verifMatch(h, reIdent))
+			verifAssume(h != "_")
+			f.ImportAlias(p0, h)
+		case 2:
+			c08raw(Qual(p1, "Y"), f)
+		case 3:
+			f.ImportNames(map[string]string{p0: "other", p1: "another"})
+		}
+		again, pan := c08raw(ref, f)
+		verifAssert(!pan, "no panic")
+		verifAssert(again == first, "the path keeps the name it first appeared under")
+		verifAssert(f.imports[p0].name == ".", "and the import table still declares it as a dot-import")
+	}
+}
